@@ -625,6 +625,13 @@ pub fn make_spec(pool: &Pool, ix: &PoolIndex, seed: u64, kind: RunKind, allow_in
         };
         let mut calls: Vec<u32> = Vec::with_capacity(ncalls);
         while calls.len() < ncalls {
+            // "A, B, A": come back to the call before last (a caller alternating between two formulas; whatever B did to
+            // shared or per-thread state is met by A again at once)
+            if calls.len() >= 2 && r.chance(0.1) {
+                let again = calls[calls.len() - 2];
+                calls.push(again);
+                continue;
+            }
             if rel && r.chance(if total_calls_long > 0 { 0.03 } else { 0.35 }) {
                 // a base value and its representation relatives, the same formula, back to back on this thread
                 let mut ex = *r.pick(&ix.rel_exprs);
